@@ -85,7 +85,8 @@ def known_findings(prop, res, replay_props):
         if not rp:
             continue
         p = subprocess.run(["python3-vt", WORKER, "--props", ",".join(replay_props), "--replay", os.path.join(core.VERIF, rp)],
-                           stdout=subprocess.PIPE, stderr=subprocess.STDOUT, text=True)
+                           stdout=subprocess.PIPE, stderr=subprocess.STDOUT, text=True,
+                           env=dict(os.environ, PTG_INCLUDE_KNOWN="1"))     # the replay of a known finding must not be excluded itself
         if "REPLAY-FAIL" in p.stdout:
             res.known.append("%s: %s" % (f["id"], f["what"]))
         else:
